@@ -40,6 +40,83 @@ theorem parseTrees_flatList (ts : List Tree) : parseTrees (flatList ts) = some t
   rw [this]
   simp [parseStk]
 
+/-! ### the bracket parser is faithful: whatever parses is the flattening of its parse -/
+
+theorem flatList_append (a b : List Tree) : flatList (a ++ b) = flatList a ++ flatList b := by
+  induction a with
+  | nil => rfl
+  | cons t ts ih => simp [flatList, ih]
+
+def Open.tok : Open → Tok
+  | .paren => .lp
+  | .brace => .lb
+
+/-- the tokens consumed when the parser is in state `(stk, cur)` -/
+def unwind : List (Open × List Tree) → List Tree → List Tok
+  | [], cur => flatList cur.reverse
+  | (o, prev) :: stk, cur => unwind stk prev ++ [o.tok] ++ flatList cur.reverse
+
+theorem unwind_push (stk : List (Open × List Tree)) (t : Tree) (cur : List Tree) :
+    unwind stk (t :: cur) = unwind stk cur ++ t.flat := by
+  cases stk with
+  | nil => simp [unwind, flatList_append, flatList]
+  | cons a stk => obtain ⟨o, prev⟩ := a; simp [unwind, flatList_append, flatList]
+
+theorem parseStk_faithful : ∀ (toks : List Tok) (stk : List (Open × List Tree)) (cur res : List Tree),
+    parseStk toks stk cur = some res → flatList res = unwind stk cur ++ toks := by
+  intro toks
+  induction toks with
+  | nil =>
+    intro stk cur res h
+    cases stk with
+    | nil => simp only [parseStk, Option.some.injEq] at h; subst h; simp [unwind]
+    | cons a stk => simp [parseStk] at h
+  | cons t ts ih =>
+    intro stk cur res h
+    cases t with
+    | lp =>
+      have := ih _ _ _ (by simpa [parseStk] using h)
+      rw [this]; simp [unwind, Open.tok, flatList]
+    | lb =>
+      have := ih _ _ _ (by simpa [parseStk] using h)
+      rw [this]; simp [unwind, Open.tok, flatList]
+    | rp =>
+      cases stk with
+      | nil => simp [parseStk] at h
+      | cons a stk =>
+        obtain ⟨o, prev⟩ := a
+        cases o with
+        | brace => simp [parseStk] at h
+        | paren =>
+          have := ih _ _ _ (by simpa [parseStk] using h)
+          rw [this, unwind_push]
+          simp [unwind, Open.tok, Tree.flat]
+    | rb =>
+      cases stk with
+      | nil => simp [parseStk] at h
+      | cons a stk =>
+        obtain ⟨o, prev⟩ := a
+        cases o with
+        | paren => simp [parseStk] at h
+        | brace =>
+          have := ih _ _ _ (by simpa [parseStk] using h)
+          rw [this, unwind_push]
+          simp [unwind, Open.tok, Tree.flat]
+    | semi =>
+      have := ih _ _ _ (by simpa [parseStk] using h)
+      rw [this, unwind_push]; simp [Tree.flat]
+    | word s =>
+      have := ih _ _ _ (by simpa [parseStk] using h)
+      rw [this, unwind_push]; simp [Tree.flat]
+    | comment s =>
+      have := ih _ _ _ (by simpa [parseStk] using h)
+      rw [this, unwind_push]; simp [Tree.flat]
+
+theorem parseTrees_faithful (toks : List Tok) (ts : List Tree) (h : parseTrees toks = some ts) :
+    flatList ts = toks := by
+  have := parseStk_faithful toks [] [] ts h
+  simpa [unwind, flatList] using this
+
 /-! ### schema layer: leaves -/
 
 theorem atomsOf_map (l : List String) : atomsOf (l.map Tree.atom) = some l := by
